@@ -120,6 +120,9 @@ ModelSyncedSurviveC == chk => \A d \in 0..Len(pend) : \A f \in [Dirty -> AllCh] 
 ModelProcessCrashC == chk => LET r == Recover(ns, LAMBDA i : wlen[i])
                             IN r.ok /\ (ackedAll # {} => r.db) /\ ackedAll \subseteq r.have
 \* C17: whenever CURRENT is durable in an image it names a complete MANIFEST (part of Recover.ok above)
+\* C13 at the system-call level: no table file that the MANIFEST on disk names is ever missing or short - in particular
+\* not after an I/O failure interrupted a flush or a compaction (the journal of a fault-injected run is validated)
+ModelNoLiveFileMissingC == chk => Recover(ns, LAMBDA i : wlen[i]).ok
 
 \* ================= what the real library recovered ============================================
 RECURSIVE ApplyKv(_, _)
@@ -166,6 +169,7 @@ RecFollowC == (IsRec /\ rec.rc = 0 /\ "follow" \in DOMAIN rec) =>
 ViolAt(name) == PrintT(<<"pr", name, l>>)
 ModelSyncedSurvive == ModelSyncedSurviveC \/ ~ViolAt("ModelSyncedSurvive")
 ModelProcessCrash == ModelProcessCrashC \/ ~ViolAt("ModelProcessCrash")
+ModelNoLiveFileMissing == ModelNoLiveFileMissingC \/ ~ViolAt("ModelNoLiveFileMissing")
 RecOpenOk == RecOpenOkC \/ ~ViolAt("RecOpenOk")
 RecSynced == RecSyncedC \/ ~ViolAt("RecSynced")
 RecAcked == RecAckedC \/ ~ViolAt("RecAcked")
